@@ -34,10 +34,10 @@ CODEVARIANT = TODAY
 
 
 # ------------------------------------------------------------------------------------------- M
-def mc(ctx, name, dim, rasters, sels, cats="<<>>", variant=TODAY, mut="none", expect="ok", inv=None):
+def mc(ctx, name, dim, rasters, sels, cats="<<>>", variant=TODAY, mut="none", expect="ok", inv=None, small=False):
     cfg = dict(spec="Spec", invariants=inv or INV, constants=dict(
         DIM=dim, Rasters=R(rasters), CATS=R(cats), Selections=R(sels), VARIANT=R(variant), MUT=mut))
-    return U.checked_mc(ctx, "Crosstab", cfg, name, expect)
+    return U.checked_mc(ctx, "Crosstab", cfg, name, expect, small=small)
 
 
 def model_checks(ctx):
@@ -49,7 +49,7 @@ def model_checks(ctx):
     def req(l):
         return "[all |-> FALSE, ids |-> %s]" % l
     main = ('Sels({NONE, 1}, {AllReq, %s}, {AllReq, %s, %s}, %s)'
-            % (req("<<6, 2, 14>>"), req("<<2>>"), req("<<1, 7, 0>>"), both))
+            % (req("<<6, 2, 14>>"), req("<<2>>"), req("<<1, 7, 0>>"), both if ctx.tier == "thorough" else '{"percentage"}'))
     hard = 'Sels({1}, {AllReq, %s}, {AllReq, %s, %s}, {"percentage"})' % (req("<<6, 2>>"), req("<<2>>"), req("<<1, 0>>"))
     every_list = ('(Sels({1}, {AllReq}, Reqs(%s), %s) \\cup Sels({NONE}, Reqs(%s), {AllReq}, {"count"}) \\cup '
                   'Sels({NONE}, Reqs({<<6, 2>>, <<4>>, <<14, 6, 4>>}), Reqs({<<1>>, <<2, 0>>, <<7, 2>>}), %s))'
@@ -61,9 +61,11 @@ def model_checks(ctx):
            % (req("<<4, 2>>"), req("<<3>>"), req("<<3, 9, 5>>"), aggs3))
     # the code of today: every invariant holds, for proper cat_ids subsets and non-ascending zone_ids too
     mc(ctx, "today_n3", 2, "AllRasters2D(3, %s, %s)" % (za, va), main)
-    mc(ctx, "today_neginf_n3", 2, "AllRasters2D(3, %s, {0, 1, NAN})" % zan, hard)
+    mc(ctx, "today_neginf_n3", 2, "AllRasters2D(3, %s, {0, 1, NAN})" % zan, hard, small=True)
     mc(ctx, "today_3d_n2", 3, "AllRasters3D(2, {2, 4, NAN}, {0, 2, NAN})", s3d, cats="<<5, 3>>")
     mc(ctx, "today_every_list_n2", 2, "AllRasters2D(2, %s, %s)" % (za, va), every_list)
+    mc(ctx, "today_3d_onelayer_n3", 3, "AllRasters2D(3, {2, 4, NAN}, {0, 2, NAN})",       # one layer: vs = <<v>>
+       'Sels({NONE, 2}, {AllReq, %s}, {AllReq, %s}, %s)' % (req("<<4, 2>>"), req("<<9, 5>>"), aggs3), cats="<<5>>")
     if thorough:
         mc(ctx, "today_multiset5", 2,
            "MultisetRasters2D(5, %s, %s, <<4, 1, 5, 2, 3>>)" % (U.tla_seq(ZC), U.tla_seq(VC)), hard)
@@ -218,6 +220,42 @@ def matrix_jobs(seed, nrasters, tag="layout_matrix"):
     return jobs
 
 
+TINY_IDS = {"0": -3e-9, "2": 0.0, "4": 2e-9, "6": 5e-9}     # code -> id; 6 is never a cell (requested only)
+
+
+def close_id_jobs(seed, count, tag="close_ids"):
+    """2-D crosstab with explicit zone_ids / cat_ids where the zone ids and the categories lie closer together than
+    any float tolerance would separate (large adjacent integers, half ids, zone ids a few 1e-9 apart around 0);
+    the request lists include ABSENT ids right next to present ones."""
+    rng = random.Random(seed * 7919 + 19)
+    jobs = []
+    for k in range(count):
+        H, W = rng.choice([(2, 3), (3, 3), (2, 2), (3, 4), (1, 6), (4, 2)])
+        n = H * W
+        tiny = k % 3 == 2
+        if tiny:
+            zpool, zabsent = [0, 2, 4], [6]
+        else:
+            base = rng.choice([200000, 400000, 888880])
+            step = rng.choice([2, 2, 1])
+            zpool, zabsent = [base, base + step, base + 2 * step], [base + 3 * step, base - step]
+        cbase = rng.choice([100000, 100000, 300000, 3])
+        cpool, cabsent = [cbase, cbase + 1, cbase + 2], [cbase + 3, cbase - 1]
+        zused = rng.sample(zpool, rng.choice([2, 3]))
+        cused = rng.sample(cpool, rng.choice([2, 3]))
+        z = [NAN if rng.random() < 0.1 else rng.choice(zused) for _c in range(n)]
+        v = [NAN if rng.random() < 0.1 else rng.choice(cused) for _c in range(n)]
+        zc, cc = zpool + zabsent, cpool + cabsent
+        zl = [[x] for x in zc] + [rng.sample(zc, rng.randrange(2, len(zc) + 1)) for _ in range(3)]
+        cl = [[x] for x in cc] + [rng.sample(cc, rng.randrange(2, len(cc) + 1)) for _ in range(3)]
+        j = crosstab_job(rng, z, [v], H, W, "mixed", nds=(NONE, NONE, NAN, cused[0]), zlists=zl, clists=cl, tag=tag)
+        if tiny:
+            j["zmap"] = dict(TINY_IDS)
+            j["zdt"] = "float64"
+        jobs.append(j)
+    return jobs
+
+
 def seq_jobs(seed, count, tag="sequence"):
     """call sequences on the SAME DataArray objects: crosstab, edit zones and/or values in place, crosstab again
     (same or other agg / selection), twice.  share = zones: same zones object, new values object per call; values:
@@ -309,7 +347,7 @@ def random_jobs(seed, count, backend="numpy", tag="random"):
             nds = [NONE, NONE, NAN, cvals[0], cvals[-1], 17]
             aggs, cats = ("count", "percentage"), None
         else:
-            nl = rng.choice([2, 3, 4])
+            nl = rng.choice([1, 1, 2, 3, 4])        # a layer dimension of length exactly 1 included
             cats = rng.sample([1, 2, 3, 5, 7, 9], nl)
             vals = [c * (vs if rng.random() < 0.5 else 1) for c in range(0 if nonneg else -9, 10)]
             layers = [[cell(vals) for _c in range(n)] for _l in range(nl)]
@@ -457,7 +495,7 @@ def run_batch(ctx, fails, jobs, name, kind, size=80000):
         idx = [i for i, c in enumerate(cases) if "error" not in c]
         good = [cases[i] for i in idx]
         v = ctx.judge("Crosstab_Judge", [U.strip(c) for c in good], name="%s_%d" % (name, done),
-                      constants=dict(CODEVARIANT=R(CODEVARIANT)), parallel=8)
+                      constants=dict(CODEVARIANT=R(CODEVARIANT)), parallel=ctx.pick(6, 8), env=U.JVM_JUDGE)
         vv = {idx[k]: cl for k, cl in v.items()}
         ctx.judge_extra = {idx[k]: ctx.judge_extra.get(k) for k in range(len(good))}
         handle(ctx, fails, cases, vv, kind)
@@ -523,11 +561,16 @@ def run(ctx):
     jobs3 = enum_jobs_3d(ctx.seed + 2, 2, [2, 4, NAN], [0, 2, NAN], [5, 3], "all_3d_n2", every_agg=True)
     scope_check(ctx, jobs3, 2, [2, 4, NAN], [0, 2, NAN], 2, "scope_3d_n2")
     jobs += jobs3
+    # 3-D values whose layer dimension has length exactly ONE (every position of that dimension, every aggregate)
+    jobs1 = enum_jobs_3d(ctx.seed + 5, ctx.pick(2, 3), [2, 4, NAN], [0, 2, NAN], [5], "all_3d_onelayer", every_agg=True)
+    scope_check(ctx, jobs1, ctx.pick(2, 3), [2, 4, NAN], [0, 2, NAN], 1, "scope_3d_onelayer")
+    jobs += jobs1
     jobs += multiset_jobs_2d(ctx.seed + 1, ctx.pick(5, 6), ZC, VC, "multiset")
     # ---- T: seeded larger rasters (same worker processes / judge JVMs as R: start-up dominates the quick tier)
     jobs += random_jobs(ctx.seed, ctx.pick(1500, 40000))
     jobs += matrix_jobs(ctx.seed, ctx.pick(60, 600))
     jobs += seq_jobs(ctx.seed, ctx.pick(300, 3000))
+    jobs += close_id_jobs(ctx.seed, ctx.pick(400, 4000))
     run_batch(ctx, fails, jobs, "replay_and_random", "R/T")
     if thorough:
         run_batch(ctx, fails, enum_jobs_2d(ctx.seed + 3, 4, ZC, VC, per_raster=2, tag="all_n4"), "replay_n4", "R")
